@@ -57,7 +57,7 @@ def search(res, tier, boost=False):
                 if ok_aspect(k):
                     pairs += [(e, k), (k, e)]
         # configurations the panel recursion treats specially (seam with all size ratios, corners, nested)
-        pairs += [(a, b) for a, b, _ in seam_and_corner_pairs(rng, gamma, 10 if tier == 'quick' else 40)
+        pairs += [(a, b) for a, b, _ in seam_and_corner_pairs(rng, gamma, 24 if tier == 'quick' else 72)
                   if ok_aspect(a) and ok_aspect(b)]
         for te, tr in pairs:
             if te.time_interval[1] <= tr.time_interval[0]:
